@@ -6,9 +6,9 @@ C.update(
     prop="C06",
     plan_sources=[
         dict(name="k1", module="Checkpoint_MC", cfg="Checkpoint_Plan_1.cfg", cap={"quick": 50, "thorough": 1000}, params=c05.P(c05.SH2, c05.T1, 1), workers=8),
-        dict(name="k2t", module="Checkpoint_MC", cfg="Checkpoint_Plan_2t.cfg", cap={"quick": 70, "thorough": 1500}, params=c05.P(c05.SH2T, c05.T2, 1), workers=8),
+        dict(name="k2t", module="Checkpoint_MC", cfg="Checkpoint_Plan_2t.cfg", cap={"quick": 70, "thorough": 1000}, params=c05.P(c05.SH2T, c05.T2, 1), workers=8),
         dict(name="k2", module="Checkpoint_MC", cfg="Checkpoint_Plan_2.cfg", cap={"quick": 30, "thorough": 1000}, params=c05.P(c05.SH2, c05.T1, 2), workers=8),
-        dict(name="k2t2", module="Checkpoint_MC", cfg="Checkpoint_Plan_2t2.cfg", cap={"quick": 30, "thorough": 1500}, params=c05.P(c05.SH2T, c05.T2, 2), workers=8),
+        dict(name="k2t2", module="Checkpoint_MC", cfg="Checkpoint_Plan_2t2.cfg", cap={"quick": 30, "thorough": 1000}, params=c05.P(c05.SH2T, c05.T2, 2), workers=8),
     ] + opcommon.sources(40, 700),
     directed="plans/C06.jsonl",
     trace_of=lambda p: (("OpStream_Trace", "OpStream_Trace.cfg", {"PROP": "C06"}) if opcommon.is_op(p)
